@@ -109,6 +109,17 @@ func (p *pp) handleSpecialValues(
 	return handled
 }
 
+// invalidateWrap is called for every %w that is reported as an error
+// (bad verb, missing operand, bad argument index). It ensures that
+// HelperForErrorf returns no error when %w is misused, also for
+// operands that do not go through handleMethods (basic types, nil).
+func (p *pp) invalidateWrap(verb rune) {
+	if verb == 'w' {
+		p.wrappedErr = nil
+		p.wrapErrs = false
+	}
+}
+
 // Sprintfn produces a RedactableString using the provided
 // SafeFormat-alike function.
 func Sprintfn(printer func(w i.SafePrinter)) m.RedactableString {
